@@ -33,7 +33,7 @@ def candidate_lines(path):
     lines = src.split('\n')
     out = []
     for node in ast.walk(tree):
-        if isinstance(node, (ast.FunctionDef,)) and node.name in FUNCS:
+        if isinstance(node, (ast.FunctionDef,)) and (not FUNCS or node.name in FUNCS) and not node.name.startswith('_taper_fmt') and node.name not in ('taper_print', '_fmt', '__str__', '__repr__'):
             body = node.body
             start = body[0].end_lineno + 1 if (isinstance(body[0], ast.Expr) and isinstance(getattr(body[0], 'value', None), ast.Constant)
                                                and isinstance(body[0].value.value, str)) else body[0].lineno
@@ -55,11 +55,15 @@ def main():
         n = int(a[a.index('--n') + 1])
     if '--seed' in a:
         seed = int(a[a.index('--seed') + 1])
+    rel = 'mininec/mininec.py'
+    if '--file' in a:
+        rel = a[a.index('--file') + 1]
+        FUNCS.clear()            # every function of that file
     os.makedirs(os.path.dirname(WT), exist_ok=True)
     sh('git -C /repo worktree add --detach %s HEAD' % WT)
     env = dict(os.environ, VERIF_REPO=WT, VERIF_NOEVIDENCE='1', VERIF_WORK=os.path.dirname(WT) + '/work',
                VERIF_REPL=os.path.dirname(WT) + '/replays', VERIF_CPUS=os.environ.get('VERIF_CPUS', '8'))
-    path = WT + '/mininec/mininec.py'
+    path = WT + '/' + rel
     res = []
     try:
         cands = candidate_lines(path)
@@ -103,7 +107,7 @@ def main():
         sh('git -C /repo worktree remove --force %s' % WT)
         sh('git -C /repo worktree prune')
         shutil.rmtree(os.path.dirname(WT), ignore_errors=True)
-        json.dump(res, open(os.path.join(ROOT, 'automut_result_%d.json' % seed), 'w'), indent=1)
+        json.dump(res, open(os.path.join(ROOT, 'automut_result_%s_%d.json' % (os.path.basename(rel)[:-3], seed)), 'w'), indent=1)
         nc = sum(1 for r in res if r['caught_by'])
         print('mutants %d caught %d not caught %d' % (len(res), nc, len(res) - nc))
 
